@@ -85,7 +85,7 @@ fn write_subword_fn<W: Write>(
             local matched_prefix="${{word:0:$char_index}}"
             local -A state_commands=${{command_transitions[$subword_state]}}
             for cmd_id in "${{!state_commands[@]}}"; do
-                readarray -t subword_candidates < <(_{command}_cmd_$cmd_id "$subword" "$matched_prefix" | while read -r f1 _; do echo "$f1"; done)
+                readarray -t subword_candidates < <(_{command}_cmd_$cmd_id "$subword" "$matched_prefix" | while IFS= read -r line; do printf '%s\n' "${{line%%$'\t'*}}"; done)
                 if [[ ${{#subword_candidates[@]}} -gt 0 ]]; then
                     indexes=($(
                         for i in "${{!subword_candidates[@]}}"; do
@@ -109,7 +109,7 @@ fn write_subword_fn<W: Write>(
                             break 3
                         fi
 
-                        if [[ $subword == "$candidate"* ]]; then
+                        if [[ -n $candidate && $subword == "$candidate"* ]]; then
                             match_len=${{#candidate}}
                             char_index=$((char_index + match_len))
                             subword_state=${{state_commands[$cmd_id]}}
@@ -163,6 +163,7 @@ fn write_subword_fn<W: Write>(
     local -a subword_candidates=()
     local -a subword_matches=()
     for (( subword_fallback_level=0; subword_fallback_level <= max_fallback_level; subword_fallback_level++ )) {{
+        subword_candidates=()
         eval "local literal_transitions_name=literal_transitions_level_${{subword_fallback_level}}"
         eval "local -a transitions=(\${{$literal_transitions_name[$subword_state]}})"
         for literal_id in "${{transitions[@]}}"; do
@@ -180,7 +181,7 @@ fn write_subword_fn<W: Write>(
         eval "local commands_name=commands_level_${{subword_fallback_level}}"
         eval "local -a transitions=(\${{$commands_name[$subword_state]}})"
         for command_id in "${{transitions[@]}}"; do
-            readarray -t subword_candidates < <(_{command}_cmd_$command_id "$completed_prefix" "$matched_prefix" | while read -r f1 _; do echo "$f1"; done)
+            readarray -t subword_candidates < <(_{command}_cmd_$command_id "$completed_prefix" "$matched_prefix" | while IFS= read -r line; do printf '%s\n' "${{line%%$'\t'*}}"; done)
             local -a filtered_candidates=()
             {MATCH_FN_NAME} "$completed_prefix" subword_candidates filtered_candidates
             for item in "${{filtered_candidates[@]}}"; do
@@ -573,7 +574,7 @@ fi
         if [[ -v "command_transitions[$state]" ]]; then
             local -A state_commands=${{command_transitions[$state]}}
             for cmd_id in "${{!state_commands[@]}}"; do
-                readarray -t candidates < <(_{command}_cmd_$cmd_id "" "" | while read -r f1 _; do echo "$f1"; done)
+                readarray -t candidates < <(_{command}_cmd_$cmd_id "" "" | while IFS= read -r line; do printf '%s\n' "${{line%%$'\t'*}}"; done)
                 if [[ ${{#candidates[@]}} -gt 0 ]]; then
                     indexes=($(
                         for i in "${{!candidates[@]}}" ; do
@@ -593,9 +594,6 @@ fi
                         fi
                     done
 
-                    if [[ $(($word_index + 1)) == $cword ]]; then
-                        break 3
-                    fi
                 fi
             done
         fi
@@ -698,6 +696,7 @@ fi
     local max_fallback_level={max_fallback_level}
     local prefix="${{words[$cword]}}"
     for (( fallback_level=0; fallback_level <= max_fallback_level; fallback_level++ )) {{
+        candidates=()
         eval "local literal_transitions_name=literal_transitions_level_${{fallback_level}}"
         eval "local -a transitions=(\${{$literal_transitions_name[$state]}})"
         for literal_id in "${{transitions[@]}}"; do
@@ -729,7 +728,7 @@ fi
         eval "local commands_name=commands_level_${{fallback_level}}"
         eval "local -a transitions=(\${{$commands_name[$state]}})"
         for command_id in "${{transitions[@]}}"; do
-            readarray -t candidates < <(_{command}_cmd_$command_id "$prefix" "" | while read -r f1 _; do echo "$f1"; done)
+            readarray -t candidates < <(_{command}_cmd_$command_id "$prefix" "" | while IFS= read -r line; do printf '%s\n' "${{line%%$'\t'*}}"; done)
             if [[ ${{#candidates[@]}} -gt 0 ]]; then
                 {MATCH_FN_NAME} "$prefix" candidates matches
             fi
